@@ -324,6 +324,9 @@ func (m *InterpModel) Call(mc *Machine, st *State, call ssa.CallInstruction, cal
 	name := fnName(callee)
 	// ---- environment
 	if pkg == modulePath+"/environment" {
+		if m.p.EnvCtorKind(callee) != "" && name != "NewEnvironment" && name != "NewEnvironmentWithParent" {
+			name = "NewEnvironment" // a constructor by what it does (a Child method, say): the parent is its one argument
+		}
 		switch name {
 		case "NewEnvironment", "NewEnvironmentWithParent":
 			parent := "nil"
@@ -470,6 +473,9 @@ func (m *InterpModel) Call(mc *Machine, st *State, call ssa.CallInstruction, cal
 		if strings.Contains(full, "strings.Builder).Write") || strings.Contains(full, "bytes.Buffer).Write") {
 			e := m.ev(in, "bufwrite", append([]string{fnName(callee)}, argStrings(args[1:])...), "")
 			return []Outcome{{Result: Unk, Apply: func(s *State) { m.Emit(s, e) }}}, true
+		}
+		if r, ok := runeMembership(callee, args); ok {
+			return []Outcome{{Result: r}}, true
 		}
 		// other library functions: pure
 		res := Sym(fnName(callee) + "(" + strings.Join(argStrings(args), ",") + ")")
